@@ -41,7 +41,8 @@ func (k Keeper) HandleTimeoutOrder(ctx sdk.Context, orderId uint64) {
 			timeoutShards = append(timeoutShards, shard)
 			timeoutCount++
 		}
-		if shard.Status == ordertypes.ShardCompleted {
+		// a shard being migrated is live work of a stored order, not a leftover of a timed out assignment
+		if shard.Status == ordertypes.ShardCompleted || shard.Status == ordertypes.ShardMigrating {
 			completedShards = append(completedShards, id)
 		} else {
 			uncompletedShards = append(uncompletedShards, id)
